@@ -45,6 +45,7 @@ import (
 	sutils "github.com/siglens/siglens/pkg/segment/utils"
 	"github.com/siglens/siglens/pkg/segment/writer"
 	"github.com/siglens/siglens/pkg/utils"
+	"github.com/siglens/siglens/pkg/verifhook"
 	log "github.com/sirupsen/logrus"
 )
 
@@ -857,6 +858,7 @@ func getAllSegmentsInAggs(queryInfo *QueryInformation, qsrs []*QuerySegmentReque
 
 	finalQsrs = append(finalQsrs, unrotatedQSR...)
 	numRawSearch += unrotatedRawCount
+	verifhook.At("snapagg.unrotated", "qid", qid, "n", len(unrotatedQSR))
 
 	rotatedQSR, rotatedRawCount, err := getAllRotatedSegmentsInAggs(queryInfo, aggs, timeRange, indexNames, qid, sTime, orgid)
 	if err != nil {
@@ -878,6 +880,7 @@ func getAllSegmentsInAggs(queryInfo *QueryInformation, qsrs []*QuerySegmentReque
 
 	finalQsrs = append(finalQsrs, rotatedQSR...)
 	numRawSearch += rotatedRawCount
+	verifhook.At("snapagg.rotated", "qid", qid, "n", len(rotatedQSR))
 
 	numDistributed = queryInfo.dqs.GetNumNodesDistributedTo()
 
@@ -1118,6 +1121,7 @@ func getAllSegmentsInQuery(queryInfo *QueryInformation, sTime time.Time) ([]*Que
 	unsortedQsrs = append(unsortedQsrs, unrotatedQSR...)
 	numRawSearch += unrotatedRawCount
 	numPQS += unrotatedPQSCount
+	verifhook.At("snap.unrotated", "qid", queryInfo.qid, "n", len(unrotatedQSR))
 
 	rotatedQSR, rotatedRawCount, rotatedPQS, err := getAllRotatedSegmentsInQuery(queryInfo, sTime)
 	if err != nil {
@@ -1140,6 +1144,7 @@ func getAllSegmentsInQuery(queryInfo *QueryInformation, sTime time.Time) ([]*Que
 	unsortedQsrs = append(unsortedQsrs, rotatedQSR...)
 	numRawSearch += rotatedRawCount
 	numPQS += rotatedPQS
+	verifhook.At("snap.rotated", "qid", queryInfo.qid, "n", len(rotatedQSR))
 
 	numDistributed = queryInfo.dqs.GetNumNodesDistributedTo()
 
